@@ -354,7 +354,11 @@ def replay_failures(obl, out, pid=PID):
     from . import replay_e3, c04_replay
     seen = set()
     per_label = {}
-    for label, model, info in obl.failed:
+    reproduced = set()
+    # a level visited twice / out of order often leaves the same where-clause (duplicates do not show): replay the semantic failures (a level visited although the
+    # reference says it is not, or the reverse) first, and keep trying other models of a builder until one reproduces
+    order_last = sorted(obl.failed, key=lambda f: 1 if (isinstance(f[2], tuple) and len(f[2]) > 1 and "out of the documented order" in str(f[2][1])) else 0)
+    for label, model, info in order_last:
         if label.startswith("coverage:"):
             out.broken.append("path conditions do not cover the configuration space: %s" % label)
             continue
@@ -372,7 +376,7 @@ def replay_failures(obl, out, pid=PID):
             out.broken.append("cannot concretize counterexample of %s (%s)" % (label, why))
             continue
         key = "%s|%s" % (blabel, common.norm(case["item"])[:160])
-        if key in seen or per_label.get(blabel, 0) >= 2:
+        if key in seen or blabel in reproduced or per_label.get(blabel, 0) >= 6:
             continue
         seen.add(key)
         per_label[blabel] = per_label.get(blabel, 0) + 1
@@ -382,12 +386,13 @@ def replay_failures(obl, out, pid=PID):
         path = e3.write_replay(pid, "case%03d" % len(seen), case)
         if replay_e3.disagrees(case, obs):
             got = replay_e3.markers_of(case, obs)
+            reproduced.add(blabel)
             out.violation(c04_replay.role_key(blabel, why, actual), path,
                           "%s: the generated impl is bounded by %s, the documented resolution gives %s for: #[derive_ex(%s)] %s" % (
                               why, got, [sorted(case["expected_markers"]), sorted(case["expected_field_types"])], case["attr"], " ".join(case["item"].split())[:400]))
         else:
             e3.not_reproduced(out, model, "for %s (%s): the real macro agrees with the reference (or refuses the item) on %s" % (label, why, " ".join(case["item"].split())[:300]))
-        if len(seen) >= 10:
+        if len(seen) >= 24 or len(reproduced) >= 5:
             break
 
 
